@@ -809,7 +809,11 @@ class Prop:
     CYCLES = ["assign_del", "observe_unobserve", "otc_add_remove", "list_grow_shrink",
               "add_remove_trait", "ctrait_pickle", "sync_unsync", "object_create_drop",
               "failed_assign", "default_materialise_drop", "clone_drop", "property_cycle",
-              "dict_set_pop", "handler_raises"]
+              "dict_set_pop", "handler_raises",
+              # failing (and succeeding) walks of a delegation chain
+              "base_trait_none_delegate", "base_trait_unfetchable", "base_trait_cycle",
+              "base_trait_ok", "delegate_read_none", "delegate_write_none",
+              "delegate_read_cycle", "trait_lookup_prefix"]
 
     def gen_cycle(self, seed):
         r = stream(seed, "cycle")
@@ -832,6 +836,24 @@ class Prop:
             @T.cached_property
             def _get_p(self):
                 return self.i + 1
+        armed = []
+
+        class Boom(T.HasTraits):
+            """Its 'target' attribute cannot be fetched."""
+            target = T.Property()
+            v = T.DelegatesTo("target")
+
+            def _get_target(self):
+                if armed:
+                    raise RuntimeError("no target")
+                return None
+
+        class D(T.HasTraits):
+            peer = T.Instance(T.HasTraits)
+            v = T.DelegatesTo("peer")
+            w = T.DelegatesTo("peer", prefix="i")
+            pre_ = T.Int(4)
+
         push_exception_handler(lambda *a: None, reraise_exceptions=False)
         oapi.push_exception_handler(lambda ev: None, reraise_exceptions=False)
 
@@ -840,6 +862,23 @@ class Prop:
             pop_exception_handler()
         self._adv_cleanup = done
         z, y = Z(), Z()
+        d_none = D()                      # peer is None
+        d1, d2 = D(), D()
+        d1.peer, d2.peer = d2, d1         # v delegates in a circle
+        d_ok = D(peer=z)                  # w -> z.i
+        boom = Boom()
+        armed.append(1)
+        # long-lived objects whose reference counts a closed cycle must leave alone
+        watch = [z, y, d_none, d1, d2, d_ok, boom, Z, D, Boom]
+        for cls in (Z, D, Boom):
+            watch.extend(cls.__dict__["__class_traits__"].values())
+            watch.extend(cls.__dict__["__class_traits__"].keys())
+
+        def swallow(f, *a):
+            try:
+                f(*a)
+            except Exception:      # noqa: BLE001 - the failure is the point
+                pass
 
         def h(event):
             pass
@@ -908,6 +947,25 @@ class Prop:
                 z.on_trait_change(bad, "i")
                 z.i = n + 1000
                 z.on_trait_change(bad, "i", remove=True)
+            elif which == "base_trait_none_delegate":
+                swallow(d_none.base_trait, "v")
+            elif which == "base_trait_unfetchable":
+                swallow(boom.base_trait, "v")
+            elif which == "base_trait_cycle":
+                swallow(d1.base_trait, "v")
+            elif which == "base_trait_ok":
+                d_ok.base_trait("w")
+                d_ok.base_trait("pre_x")
+            elif which == "delegate_read_none":
+                swallow(getattr, d_none, "v")
+            elif which == "delegate_write_none":
+                swallow(setattr, d_none, "v", n)
+            elif which == "delegate_read_cycle":
+                swallow(getattr, d1, "v")
+                swallow(setattr, d1, "v", n)
+            elif which == "trait_lookup_prefix":
+                d_ok.trait("pre_%d" % (n % 7))
+                swallow(d_ok.trait, "nope", True)
         for i, op in enumerate(trace["ops"]):
             env.begin_op(i, op)
             which = op["which"]
@@ -916,14 +974,27 @@ class Prop:
                 one(which, q)
             gc.collect()
             b0 = sys.getallocatedblocks()
+            rc0 = [sys.getrefcount(x) for x in watch]
             for q in range(n):
                 one(which, q + 40)
             gc.collect()
             b1 = sys.getallocatedblocks()
+            rc1 = [sys.getrefcount(x) for x in watch]
             for q in range(n):
                 one(which, q + 1000)
             gc.collect()
             b2 = sys.getallocatedblocks()
+            rc2 = [sys.getrefcount(x) for x in watch]
+            # reference-neutral: a closed cycle repeated n times must not move the
+            # reference count of a long-lived object by about n, twice in a row
+            half = n // 2
+            for x, c0, c1, c2 in zip(watch, rc0, rc1, rc2):
+                if (c1 - c0 >= half and c2 - c1 >= half) or (c0 - c1 >= half and c1 - c2 >= half):
+                    what = x if isinstance(x, (str, type)) else type(x).__name__
+                    raise Violation("C18.refcount-drift",
+                                    "closed cycle '%s' moves the reference count of a long-lived "
+                                    "object (%s) by %+d and %+d in two batches of %d repetitions"
+                                    % (which, what, c1 - c0, c2 - c1, n), i)
             for q in range(n):
                 one(which, q + 2000)
             gc.collect()
